@@ -217,6 +217,12 @@ func SliceArgs(content string) (expr string, err error) {
 		if to > int(decl.Rbrace)-1 {
 			to = int(decl.Rbrace) - 1
 		}
+		if len(decl.Elts) == 0 {
+			// Only a comment: the padding before the closing brace is not part of it either.
+			for to > from && unicode.IsSpace(rune(src[to-1])) {
+				to--
+			}
+		}
 		betweenEndAndBrace := src[to : decl.Rbrace-1]
 		var hasCodeBetweenEndAndBrace bool
 		for _, r := range betweenEndAndBrace {
